@@ -70,7 +70,7 @@ def match_known(known, prop, ob_id, err):
 
 
 # ------------------------------------------------------------------ running one unit
-def run_unit(unit, wd, canary=True, threads=4):
+def run_unit(unit, wd, canary=True, threads=4, extra_seeds=()):
     """returns dict(status, notes, verus={...}, canary={...})"""
     r = dict(unit=unit.name, status='ok', notes=[], wall_s=0.0, smt_s=0.0, verified=0, errors=0, cmd='',
              canary_ok=None, canary_missing=[], fn_times=[])
@@ -127,6 +127,19 @@ def run_unit(unit, wd, canary=True, threads=4):
         unit.generate()
         for ob in unit.obligations:
             ob.errors = errs.get(ob.id, [])
+    # thorough tier: the proofs must be stable under other solver seeds (a failure only there is instability, not a violation)
+    r['seeds'] = [0]
+    if extra_seeds and status == 'ok':
+        for sd in extra_seeds:
+            sres = U.run_verus(gen, threads=threads, flags=unit.verus_flags + ['--smt-option', 'smt.random_seed=%d' % sd,
+                                                                             '--smt-option', 'sat.random_seed=%d' % sd])
+            svr = (sres['json'] or {}).get('verification-results') or {}
+            r['smt_s'] += sum(f.get('time-micros', 0) for f in U.function_times(sres)) / 1e6
+            if not svr.get('success'):
+                r['status'] = 'undecided'
+                r['notes'].append('proof unstable: verifies with the default solver seed but not with seed %d' % sd)
+            else:
+                r['seeds'].append(sd)
     r['wall_s'] = time.time() - t0
     return r
 
@@ -152,7 +165,8 @@ def check_property(prop, tier, seed, keep=False, canary=True):
     known, fixed = load_known()
     results = {}
     with cf.ThreadPoolExecutor(max_workers=4) as ex:
-        futs = {ex.submit(run_unit, u, wd, canary, 4): u for u in units}
+        extra = ((seed * 7919 + 1) % 100000, (seed * 104729 + 17) % 100000) if tier == 'thorough' else ()
+        futs = {ex.submit(run_unit, u, wd, canary, 4, extra): u for u in units}
         jfuts = {ex.submit(J.run_job, jb, wd, tier, seed): jb for jb in joblist}
         for f in futs:
             results[futs[f].name] = f.result()
@@ -324,6 +338,7 @@ def write_evidence(prop, tier, seed, wall, n_ob, n_ok, per_ob, bounded, units, r
         verus_functions_verified=sum(r.get('verified', 0) for r in results.values()),
         extraction_drop_report=drop,
         vacuity_canaries={r['unit']: r['canary_ok'] for r in results.values()},
+        solver_seeds={r['unit']: r.get('seeds', [0]) for r in results.values()},
         known_findings=[dict(obligation=k['obligation'], kind=k['kind'], site=k['site'], what=k['what']) for k, _, _ in known_hits],
         undecided=undecided,
         samples=samples or [dict(obligation=o['id'], target=o.get('target')) for o in (per_ob + bounded)[:3]],
